@@ -372,7 +372,7 @@ def unit_for(p):
     if k in _units:
         return _units[k]
     if SEMANTIC_ATOMS and not _only_vars(p):
-        for k2, g in _units.items():
+        for k2, g in list(_units.items()):
             if iszero(p - DEFS[g][1]):
                 _units[k] = g
                 return g
@@ -493,8 +493,9 @@ def _needs_work(cur):
     return best
 
 
-def expand(s: LP) -> LP:
-    """eliminate units and reduce roots: returns an LP equal to s times a non-zero unit power"""
+def expand(s: LP, multipliers=None) -> LP:
+    """eliminate units and reduce roots: returns an LP equal to s times a non-zero unit power.
+    multipliers (optional list) receives the (unit generator, power) factors that were multiplied in"""
     cur = s
     while True:
         g = _needs_work(cur)
@@ -535,6 +536,8 @@ def expand(s: LP) -> LP:
             cur = r
         else:
             p = d[1]
+            if mn < 0 and multipliers is not None:
+                multipliers.append((g, -mn))
             rest = {}
             groups = {}
             for m, c, e in terms:
